@@ -4,6 +4,7 @@ import CfrVerif.Proofs.Frontier
 import CfrVerif.Props.C06
 import CfrVerif.Props.C07
 import CfrVerif.Proofs.Fuel
+import CfrVerif.Proofs.NoPanic
 import CfrVerif.Proofs.WellFormed
 /-!
 # C05 — every solve returns a well-formed strategy profile and never panics
@@ -213,77 +214,22 @@ theorem next_nodes_terminates (c : ECtx ℝ) (n : Node ℝ) (path : Path) (extra
 
 /-! ## no infoset twice on a path -/
 
-mutual
-/-- no decision infoset of either player occurs twice on a root-to-leaf path -/
-def NoRepeat : List (Bool × Nat) → Node ℝ → Prop
-  | _, .term _ => True
-  | seen, .chance _ ks => NoRepeatL seen ks
-  | seen, .player one i ks => (one, i) ∉ seen ∧ NoRepeatL ((one, i) :: seen) ks
-def NoRepeatL : List (Bool × Nat) → List (Node ℝ) → Prop
-  | _, [] => True
-  | seen, k :: ks => NoRepeat seen k ∧ NoRepeatL seen ks
-end
+/-! `NoRepeat` and `wf_no_infoset_twice_on_path` live in `Proofs/NoRepeat.lean`; the traversals
+with their panics as values (`Model/Checked.lean`) never take the panic branch on an accepted
+game (`Proofs/NoPanic.lean`): -/
 
-mutual
-theorem noRepeat_of_PR (h1 h2 : ℕ → Hist) :
-    ∀ (n : Node ℝ) (seen : List (Bool × ℕ)) (H1 H2 : Hist), PR true h1 H1 n → PR false h2 H2 n →
-      SeenOK h1 h2 seen H1.length H2.length → NoRepeat seen n
-  | .term _, _, _, _, _, _, _ => by simp only [NoRepeat]
-  | .chance _ ks, seen, H1, H2, p1, p2, hs => by
-    simp only [PR] at p1 p2
-    simp only [NoRepeat]
-    exact noRepeatL_of_PRL h1 h2 ks seen H1 H2 p1 p2 hs
-  | .player true i ks, seen, H1, H2, p1, p2, hs => by
-    simp only [PR, if_true, Bool.true_eq_false, if_false] at p1 p2
-    simp only [NoRepeat]
-    have hi : (h1 i).length = H1.length := by rw [p1.1]
-    exact ⟨hs.not_mem_true i hi,
-      noRepeatL_of_PRD_true h1 h2 ks _ H1 H2 i 0 p1.2 p2 (hs.cons_true i hi)⟩
-  | .player false i ks, seen, H1, H2, p1, p2, hs => by
-    simp only [PR, if_true, Bool.false_eq_true, if_false] at p1 p2
-    simp only [NoRepeat]
-    have hi : (h2 i).length = H2.length := by rw [p2.1]
-    exact ⟨hs.not_mem_false i hi,
-      noRepeatL_of_PRD_false h1 h2 ks _ H1 H2 i 0 p1 p2.2 (hs.cons_false i hi)⟩
-theorem noRepeatL_of_PRL (h1 h2 : ℕ → Hist) :
-    ∀ (ks : List (Node ℝ)) (seen : List (Bool × ℕ)) (H1 H2 : Hist), PRL true h1 H1 ks →
-      PRL false h2 H2 ks → SeenOK h1 h2 seen H1.length H2.length → NoRepeatL seen ks
-  | [], _, _, _, _, _, _ => by simp only [NoRepeatL]
-  | k :: ks, seen, H1, H2, p1, p2, hs => by
-    simp only [PRL] at p1 p2
-    simp only [NoRepeatL]
-    exact ⟨noRepeat_of_PR h1 h2 k seen H1 H2 p1.1 p2.1 hs,
-      noRepeatL_of_PRL h1 h2 ks seen H1 H2 p1.2 p2.2 hs⟩
-theorem noRepeatL_of_PRD_true (h1 h2 : ℕ → Hist) :
-    ∀ (ks : List (Node ℝ)) (seen : List (Bool × ℕ)) (H1 H2 : Hist) (i a : ℕ),
-      PRD true h1 H1 i a ks → PRL false h2 H2 ks →
-      SeenOK h1 h2 seen (H1.length + 1) H2.length → NoRepeatL seen ks
-  | [], _, _, _, _, _, _, _, _ => by simp only [NoRepeatL]
-  | k :: ks, seen, H1, H2, i, a, p1, p2, hs => by
-    simp only [PRD] at p1
-    simp only [PRL] at p2
-    simp only [NoRepeatL]
-    refine ⟨noRepeat_of_PR h1 h2 k seen (H1 ++ [(i, a)]) H2 p1.1 p2.1 (by simpa using hs),
-      noRepeatL_of_PRD_true h1 h2 ks seen H1 H2 i (a + 1) p1.2 p2.2 hs⟩
-theorem noRepeatL_of_PRD_false (h1 h2 : ℕ → Hist) :
-    ∀ (ks : List (Node ℝ)) (seen : List (Bool × ℕ)) (H1 H2 : Hist) (i a : ℕ),
-      PRL true h1 H1 ks → PRD false h2 H2 i a ks →
-      SeenOK h1 h2 seen H1.length (H2.length + 1) → NoRepeatL seen ks
-  | [], _, _, _, _, _, _, _, _ => by simp only [NoRepeatL]
-  | k :: ks, seen, H1, H2, i, a, p1, p2, hs => by
-    simp only [PRD] at p2
-    simp only [PRL] at p1
-    simp only [NoRepeatL]
-    refine ⟨noRepeat_of_PR h1 h2 k seen H1 (H2 ++ [(i, a)]) p1.1 p2.1 (by simpa using hs),
-      noRepeatL_of_PRD_false h1 h2 ks seen H1 H2 i (a + 1) p1.2 p2.2 hs⟩
-end
+/-- **`recurse_single` never panics**: no chance or player index is out of bounds and no infoset's
+`RefCell` is borrowed twice, for every strategy table, reach, draw oracle and sample cache -/
+theorem vanilla_traversal_never_panics (g : Game ℝ) (hg : GameWF g) (c : VCtx ℝ) (pc p1 p2 : ℝ)
+    (d : DrawSt ℝ) : vrecK g.sizes c [] g.root pc p1 p2 d = some (vrec c g.root pc p1 p2 d) :=
+  vrec_never_panics g hg c pc p1 p2 d
 
-/-- perfect recall excludes a repeated infoset on a path, so the mutable borrow of an infoset
-held across the recursion of `recurse_single` is never taken twice -/
-theorem wf_no_infoset_twice_on_path (g : Game ℝ) (hg : GameWF g) : NoRepeat [] g.root := by
-  obtain ⟨h1, p1, -⟩ := hg.recall true
-  obtain ⟨h2, p2, -⟩ := hg.recall false
-  exact noRepeat_of_PR h1 h2 g.root [] [] [] p1 p2 (SeenOK.nil h1 h2 _ _)
+/-- **`recurse_regret` never panics** (single-threaded external sampling; for the multi-threaded
+one `try_lock` cannot fail by C07's `active_infoset_visited_once`) -/
+theorem external_traversal_never_panics (g : Game ℝ) (hg : GameWF g) (c : ECtx ℝ) (d : DrawSt ℝ) :
+    erecK g.sizes c [] g.root d = some (erec c g.root d) :=
+  erec_never_panics g hg c d
+
 
 /-! ## non-vacuity: the hypotheses are satisfiable, the conclusions are not trivially true -/
 
